@@ -19,14 +19,16 @@ func init() {
 	register(&Property{
 		ID:        "C15",
 		Title:     "iptables/nftables sync converges and leaves other software's rules alone",
-		Technique: "static analysis: cut-set guard analysis on the restore/transaction error, path analysis of the failure edge, loop-scope ownership of index-based deletes, data-flow of the hashed string (go/ssa + AST over felix/iptables, felix/nftables, felix/generictables)",
+		Technique: "static analysis: cut-set guard analysis on the restore/transaction error, path analysis of the failure edge, loop-scope ownership of index-based deletes, data-flow of the hashed string, key-sensitive ordering of definition removal against refcount release, pairing of view drops with dirty-set resets (go/ssa + AST over felix/iptables, felix/nftables, felix/generictables)",
 		DesignRef: "DESIGN.md §3 C15",
 		Explanation: "Decides structural clauses of the property: (commit) in iptables.Table.applyUpdates and nftables.NftablesTable.applyUpdates every mutation of the believed dataplane state (chainToDataplaneHashes, chainToFullRules) and every reset of the dirty sets lies behind the nil-error edge of the call that runs the restore command / nft transaction, or behind the 'nothing to write' test; per-key edits of the believed state happen nowhere else; " +
 			"(own) in iptables.Table.loadDataplaneState a chain name read from the kernel enters dirtyChains (whole-chain rewrite/delete) only under ourChainsRegexp.MatchString(name); " +
 			"(delvalue) index-based line renderers (RenderReplace, RenderInsertAtRuleNumber, renderDeleteByIndexLine) are used in applyUpdates only inside loops over dirtyChains, never for insert/append chains shared with other software; " +
 			"(invalidate) after a failed write the cached view is invalidated or reloaded before the next write attempt; " +
 			"(hash) the string hashed for a rule is produced by the same rendering function that produces the line/rule written to the kernel, and RuleHashes chains the previous hash before each rule and seeds with the chain name; " +
-			"(reread) the two things that suppress a re-read of the kernel table - the lastReadTime stamp the refresh timer is measured from and inSyncWithDataPlane=true - are set, in both tables, only where a kernel read certainly happens (the store is dominated by a read call, or dominates one that post-dominates it; helper functions are justified through all their call sites), and in-sync is never asserted from inside the write path (applyUpdates and its callees): a write is not a read.",
+			"(reread) the two things that suppress a re-read of the kernel table - the lastReadTime stamp the refresh timer is measured from and inSyncWithDataPlane=true - are set, in both tables, only where a kernel read certainly happens (the store is dominated by a read call, or dominates one that post-dominates it; helper functions are justified through all their call sites), and in-sync is never asserted from inside the write path (applyUpdates and its callees): a write is not a read; " +
+			"(defrelease) in both tables, in every method, a removal or replacement of chainNameToChain[k] (direct, or through a method that does it for its parameter) is never followed by a refcount release keyed on the same k that looks chainNameToChain[k] up to release the chains that definition refers to (decrefChain and anything that hands its parameter to it): the references held by the old definition are given up while the old definition is still there, so no chain keeps a refcount that nothing will drop; " +
+			"(viewdrop) a method that replaces the believed view chainToDataplaneHashes by a fresh/cleared map without reading the kernel (nftables queueTableRecreate) also resets, on every path, each pending-deletion dirty set (the table fields applyUpdates loops over while consulting desiredStateOfChain), and no mark made on the way to that reset is wiped by it; the iptables table only ever replaces the view by what a read returned.",
 		NotDecided: "That the comparison between the hashes read back and the expected hashes in loadDataplaneState distinguishes a chain that is absent from the kernel (nil) from one that is present and empty (seed C15-1: reflect.DeepEqual -> slices.Equal): absence is encoded only in the nil-vs-empty value convention shared by the save-output parser, RuleHashes and the comparator, not in any branch or lookup shape, so the only static test would be a whitelist of comparator names; that the refresh test in Apply is measured against lastReadTime. Convergence from an arbitrary kernel state (delta arithmetic, index bookkeeping of insert/append chains); that ourChainsRegexp matches exactly Felix's chains; parsing of iptables-save output; behaviour of iptables-restore/nft themselves.",
 		Assumptions: []string{
 			"go/types + go/ssa (x/tools v0.50.0) model of the current source, CGO_ENABLED=0 build",
@@ -60,6 +62,16 @@ func init() {
 				Old: "\twroteToDataplane := tx.NumOperations() > 0\n", New: "\tt.inSyncWithDataPlane = true\n\twroteToDataplane := tx.NumOperations() > 0\n", Expect: "C15.reread/NftablesTable.applyUpdates/inSyncWithDataPlane"},
 			{Name: "rule position no longer hashed", File: "felix/generictables/rules.go",
 				Old: "\t\ts.Reset()\n\t\t_, err = s.Write(hash)\n", New: "\t\ts.Reset()\n\t\t_, err = s.Write(nil)\n", Expect: "C15.hash/RuleHashes/chained"},
+			{Name: "iptables chain definition dropped before its forced self-reference is released (children leak)", File: "felix/iptables/table.go",
+				Old: "\t\tif oldChain.ForceProgramming {\n\t\t\tt.decrefChain(name)\n\t\t}\n\t\tt.maybeDecrefReferredChains(name, oldChain.Rules)\n\t\tdelete(t.chainNameToChain, name)\n",
+				New: "\t\tdelete(t.chainNameToChain, name)\n\t\tif oldChain.ForceProgramming {\n\t\t\tt.decrefChain(name)\n\t\t}\n\t\tt.maybeDecrefReferredChains(name, oldChain.Rules)\n", Expect: "C15.defrelease/Table.RemoveChainByName/chainNameToChain"},
+			{Name: "iptables new chain definition installed before the old one's references are released", File: "felix/iptables/table.go",
+				Old: "\tif oldChain := t.chainNameToChain[chain.Name]; oldChain != nil {\n\t\toldNumRules = len(oldChain.Rules)\n\t\tif oldChain.ForceProgramming {",
+				New: "\toldChain := t.chainNameToChain[chain.Name]\n\tt.chainNameToChain[chain.Name] = chain\n\tif oldChain != nil {\n\t\toldNumRules = len(oldChain.Rules)\n\t\tif oldChain.ForceProgramming {", Expect: "C15.defrelease/Table.UpdateChain/chainNameToChain"},
+			{Name: "nftables table recreate keeps stale pending deletions", File: "felix/nftables/table.go",
+				Old: "\tt.dirtyChains = set.New[string]()\n\tfor chainName := range t.chainNameToChain {\n", New: "\tfor chainName := range t.chainNameToChain {\n", Expect: "C15.viewdrop/NftablesTable.queueTableRecreate/dirtyChains/reset"},
+			{Name: "nftables table recreate resets the dirty set after re-marking the wanted chains", File: "felix/nftables/table.go",
+				Old: "\tt.flowtableDirty = t.flowtableEnabled\n\n\t// We already know what the table will contain", New: "\tt.dirtyChains = set.New[string]()\n\tt.flowtableDirty = t.flowtableEnabled\n\n\t// We already know what the table will contain", Expect: "C15.viewdrop/NftablesTable.queueTableRecreate/dirtyChains/order"},
 		},
 	})
 }
@@ -86,6 +98,8 @@ func runC15(c *Ctx) {
 	c.Rule("C15.invalidate", "E-ERR", "a failed write invalidates or reloads the cached view before the next write attempt", floor(2))
 	c.Rule("C15.hash", "E-FLOW/E-ORDER", "hashed string comes from the renderer that writes the rule; RuleHashes chains previous hash and seeds with the chain name", floor(7))
 	c.Rule("C15.reread", "E-ORDER", "lastReadTime and inSyncWithDataPlane=true (the suppressors of a kernel re-read) are set only where a kernel read certainly happens; in-sync is never asserted inside the write path", floor(5))
+	c.Rule("C15.defrelease", "E-ORDER", "a chain's definition (chainNameToChain[k]) is removed/replaced only after every refcount release keyed on k that looks that definition up to release the chains it refers to", floor(6))
+	c.Rule("C15.viewdrop", "E-PAIR", "a transition that drops the believed view (chainToDataplaneHashes) without reading the kernel resets every pending-deletion dirty set (the sets applyUpdates walks consulting desiredStateOfChain), and the reset does not wipe the re-marking", floor(3))
 	nCommit, nInv, nHash := 0, 0, 0
 	if want[c15IptPkg] {
 		c.Rule("C15.own", "E-GUARD", "iptables.Table.loadDataplaneState: dirtyChains.Add(name) only under ourChainsRegexp.MatchString(name)", 2)
@@ -93,6 +107,8 @@ func runC15(c *Ctx) {
 		p := c.Load(c15IptPkg)
 		nCommit += c15Commit(c, p, c15IptPkg, "Table", []string{"chainToDataplaneHashes", "chainToFullRules"}, []string{"dirtyChains", "dirtyInsertAppend"})
 		nInv += c15Invalidate(c, p, c15IptPkg, "Table")
+		c15DefRelease(c, p, c15IptPkg, "Table")
+		c15ViewDrop(c, p, c15IptPkg, "Table")
 		c15Own(c, p)
 		c15DelValue(c, p)
 		nHash += c15HashRenderer(c, p, c15IptPkg, "iptablesRenderer")
@@ -115,6 +131,8 @@ func runC15(c *Ctx) {
 		p := c.Load(c15NftPkg)
 		nCommit += c15Commit(c, p, c15NftPkg, "NftablesTable", []string{"chainToDataplaneHashes"}, []string{"dirtyChains", "dirtyBaseChains"})
 		nInv += c15Invalidate(c, p, c15NftPkg, "NftablesTable")
+		c15DefRelease(c, p, c15NftPkg, "NftablesTable")
+		c15ViewDrop(c, p, c15NftPkg, "NftablesTable")
 		nHash += c15HashRenderer(c, p, c15NftPkg, "nftRenderer")
 		nftField := c15Field(c, p, c15NftPkg, "NftablesTable", "nft")
 		c15Reread(c, p, c15NftPkg, "NftablesTable", func(ci ssa.CallInstruction) bool {
@@ -825,4 +843,482 @@ func c15Reread(c *Ctx, p *Prog, pkg, typ string, isPrim func(ssa.CallInstruction
 	if nFlag == 0 {
 		c.Lost("%s.inSyncWithDataPlane is never set to true", typ)
 	}
+}
+
+// ---------------------------------------------------------------------------
+// C15.defrelease (E-ORDER)
+//
+// chainRefCounts decides which chains are wanted in the kernel.  The function
+// that gives up a reference to chain k (refcount decrement / delete keyed by its
+// parameter k) looks the *definition* of k up in chainNameToChain[k] to give up,
+// recursively, the references that definition holds on other chains.  A mutator
+// that removes or replaces chainNameToChain[k] must therefore finish every such
+// release keyed on k first: afterwards the release would find no definition (or
+// the new one) and the chains the old definition referred to keep their
+// refcount for ever - they stay programmed although nothing reaches them.
+//
+// Derived structurally, per table type:
+//   releaser (f,i): f looks up chainNameToChain[param i] and decrements/deletes
+//                   chainRefCounts[param i]; or f passes its param i to a releaser.
+//   mutator  (f,i): f stores/deletes chainNameToChain[param i]; or passes param i
+//                   to a mutator.
+// In every method, for every mutation event (direct store/delete of
+// chainNameToChain[k], or call of a mutator with key k) no release event with
+// the same key (same SSA value, or same access path on the same root) may be
+// reachable afterwards.  A key rooted in a loop variable is only "the same" on
+// paths that do not re-enter the block defining that variable.
+// ---------------------------------------------------------------------------
+
+type c15KP struct {
+	f *ssa.Function
+	i int
+}
+
+// c15ParamIdx: v is (on every origin) the i-th parameter of f; -1 otherwise.
+func c15ParamIdx(f *ssa.Function, v ssa.Value) int {
+	os := origins(v, nil)
+	idx := -1
+	for _, o := range os {
+		pr, ok := o.V.(*ssa.Parameter)
+		if !ok || pr.Parent() != f {
+			return -1
+		}
+		j := -1
+		for k, q := range f.Params {
+			if q == pr {
+				j = k
+			}
+		}
+		if j < 0 || (idx != -1 && idx != j) {
+			return -1
+		}
+		idx = j
+	}
+	return idx
+}
+
+// c15KeyAccess decomposes a key into the value whose identity decides which
+// object is denoted (root) and the sequence of field selections applied to it
+// (loads and type conversions are transparent).
+func c15KeyAccess(v ssa.Value) (root ssa.Value, sel string) {
+	for i := 0; i < 16; i++ {
+		switch x := v.(type) {
+		case *ssa.UnOp:
+			if x.Op != token.MUL {
+				return v, sel
+			}
+			v = x.X
+		case *ssa.FieldAddr:
+			sel = "." + fieldName(x.X.Type(), x.Field) + sel
+			v = x.X
+		case *ssa.Field:
+			sel = "." + fieldName(x.X.Type(), x.Field) + sel
+			v = x.X
+		case *ssa.ChangeType:
+			v = x.X
+		case *ssa.Convert:
+			v = x.X
+		default:
+			return v, sel
+		}
+	}
+	return v, sel
+}
+
+func c15KeyRoot(v ssa.Value) ssa.Value {
+	r, _ := c15KeyAccess(v)
+	return r
+}
+
+// c15SameKey: the same SSA value, or the same field selection on the same root.
+func c15SameKey(a, b ssa.Value) bool {
+	if a == b {
+		return true
+	}
+	ra, sa := c15KeyAccess(a)
+	rb, sb := c15KeyAccess(b)
+	return ra == rb && sa == sb && sa != ""
+}
+
+func c15KeyText(v ssa.Value) string {
+	r, sel := c15KeyAccess(v)
+	switch x := r.(type) {
+	case *ssa.Parameter:
+		return x.Name() + sel
+	case *ssa.Const:
+		return path(r) + sel
+	}
+	return "<element>" + sel
+}
+
+// c15ReachesSameKey: b can execute after a while key still denotes the same
+// object (paths through the block that (re)defines a loop-variant root are cut).
+func c15ReachesSameKey(a, b ssa.Instruction, key ssa.Value) bool {
+	if a.Parent() != b.Parent() {
+		return false
+	}
+	if a.Block() == b.Block() && instrIndex(a) < instrIndex(b) {
+		return true
+	}
+	var avoid *ssa.BasicBlock
+	if ri, ok := c15KeyRoot(key).(ssa.Instruction); ok && ri.Block() != nil && blockReach(ri.Block())[ri.Block()] {
+		avoid = ri.Block()
+	}
+	seen := map[*ssa.BasicBlock]bool{}
+	st := append([]*ssa.BasicBlock(nil), a.Block().Succs...)
+	for len(st) > 0 {
+		x := st[len(st)-1]
+		st = st[:len(st)-1]
+		if seen[x] || x == avoid {
+			continue
+		}
+		seen[x] = true
+		if x == b.Block() {
+			return true
+		}
+		st = append(st, x.Succs...)
+	}
+	return false
+}
+
+type c15KeyEvent struct {
+	in   ssa.Instruction
+	key  ssa.Value
+	what string
+}
+
+func c15DefRelease(c *Ctx, p *Prog, pkg, typ string) int {
+	defs := c15Field(c, p, pkg, typ, "chainNameToChain")
+	refs := c15Field(c, p, pkg, typ, "chainRefCounts")
+	methods := p.methodsOf(pkg, typ)
+	if len(methods) == 0 {
+		c.Lost("%s.%s has no methods", pkg, typ)
+	}
+	isMethod := map[*ssa.Function]bool{}
+	for _, m := range methods {
+		isMethod[m] = true
+	}
+	rel, mut := map[c15KP]bool{}, map[c15KP]bool{}
+	// direct mutations of chainNameToChain in a function's own body
+	directMut := func(f *ssa.Function) []c15KeyEvent {
+		var out []c15KeyEvent
+		allInstrs(f, false, func(_ *ssa.Function, in ssa.Instruction) {
+			if mu, ok := in.(*ssa.MapUpdate); ok && fieldVar(mu.Map) == defs {
+				out = append(out, c15KeyEvent{in, mu.Key, "replacement of the definition"})
+			}
+			if cc, ok := isBuiltinCall(in, "delete"); ok && len(cc.Args) == 2 && fieldVar(cc.Args[0]) == defs {
+				out = append(out, c15KeyEvent{in, cc.Args[1], "removal of the definition"})
+			}
+		})
+		return out
+	}
+	for _, f := range methods {
+		looks, decs := map[int]bool{}, map[int]bool{}
+		allInstrs(f, false, func(_ *ssa.Function, in ssa.Instruction) {
+			switch x := in.(type) {
+			case *ssa.Lookup:
+				if fieldVar(x.X) == defs {
+					if i := c15ParamIdx(f, x.Index); i >= 0 {
+						looks[i] = true
+					}
+				}
+			case *ssa.MapUpdate:
+				if fieldVar(x.Map) == refs {
+					if bo, ok := x.Value.(*ssa.BinOp); ok && bo.Op == token.SUB {
+						if i := c15ParamIdx(f, x.Key); i >= 0 {
+							decs[i] = true
+						}
+					}
+				}
+			default:
+				if cc, ok := isBuiltinCall(in, "delete"); ok && len(cc.Args) == 2 && fieldVar(cc.Args[0]) == refs {
+					if i := c15ParamIdx(f, cc.Args[1]); i >= 0 {
+						decs[i] = true
+					}
+				}
+			}
+		})
+		for i := range looks {
+			if decs[i] {
+				rel[c15KP{f, i}] = true
+			}
+		}
+		for _, e := range directMut(f) {
+			if i := c15ParamIdx(f, e.key); i >= 0 {
+				mut[c15KP{f, i}] = true
+			}
+		}
+	}
+	if len(rel) == 0 {
+		c.Lost("%s: no method gives up a reference (decrement/delete of chainRefCounts[k]) by looking up chainNameToChain[k] for its own parameter k", typ)
+	}
+	// closure over parameter passing
+	for changed := true; changed; {
+		changed = false
+		for _, f := range methods {
+			allInstrs(f, false, func(_ *ssa.Function, in ssa.Instruction) {
+				ci, ok := in.(ssa.CallInstruction)
+				if !ok {
+					return
+				}
+				g := calleeFn(ci.Common())
+				if g == nil || !isMethod[g] || ci.Common().IsInvoke() {
+					return
+				}
+				for j, a := range ci.Common().Args {
+					for _, set := range []map[c15KP]bool{rel, mut} {
+						if set[c15KP{g, j}] {
+							if i := c15ParamIdx(f, a); i >= 0 && !set[c15KP{f, i}] {
+								set[c15KP{f, i}] = true
+								changed = true
+							}
+						}
+					}
+				}
+			})
+		}
+	}
+	// mutations hidden in closures cannot be ordered against the method body
+	n := 0
+	for _, f := range methods {
+		_, pk := c17FieldMutations(f, defs)
+		for _, in := range pk {
+			if in.Parent() != f {
+				n++
+				c.Undecided(fmt.Sprintf("C15.defrelease/%s/chainNameToChain", fnName(f)), p.Pos(in.Pos()), "chainNameToChain is mutated inside a closure of %s: cannot order it against the releases", fnName(f))
+			}
+		}
+	}
+	for _, f := range methods {
+		muts := directMut(f)
+		var rels []c15KeyEvent
+		allInstrs(f, false, func(_ *ssa.Function, in ssa.Instruction) {
+			ci, ok := in.(ssa.CallInstruction)
+			if !ok {
+				return
+			}
+			g := calleeFn(ci.Common())
+			if g == nil || !isMethod[g] || ci.Common().IsInvoke() {
+				return
+			}
+			for j, a := range ci.Common().Args {
+				if mut[c15KP{g, j}] {
+					muts = append(muts, c15KeyEvent{in, a, "call of " + fnName(g) + " (which removes/replaces the definition)"})
+				}
+				if rel[c15KP{g, j}] {
+					rels = append(rels, c15KeyEvent{in, a, fnName(g)})
+				}
+			}
+		})
+		for _, m := range muts {
+			n++
+			key := fmt.Sprintf("C15.defrelease/%s/chainNameToChain", fnName(f))
+			bad := ""
+			for _, r := range rels {
+				if r.in == m.in || !c15SameKey(m.key, r.key) {
+					continue
+				}
+				if c15ReachesSameKey(m.in, r.in, m.key) {
+					bad = fmt.Sprintf("%s of chainNameToChain[%s] at %s can be followed by %s(%s) at %s", m.what, c15KeyText(m.key), p.Pos(m.in.Pos()), r.what, c15KeyText(r.key), p.Pos(r.in.Pos()))
+					break
+				}
+			}
+			c.Check(bad == "", key, p.Pos(m.in.Pos()),
+				"every release of a reference to this chain that consults its definition is finished before the definition is removed/replaced",
+				"in "+fnName(f)+" "+bad+": that release looks the chain's definition up in chainNameToChain to give up the references the definition holds on other chains, so it now finds none (or the new one); the chains the old definition jumped to keep a refcount nobody will drop and stay programmed in the kernel after a successful Apply")
+		}
+	}
+	return n
+}
+
+// ---------------------------------------------------------------------------
+// C15.viewdrop (E-PAIR)
+//
+// A dirty chain that is not in the desired state is a pending *deletion*: the
+// write path flushes and deletes it by name, which presupposes that the chain is
+// in the kernel, i.e. in the believed view chainToDataplaneHashes.  A transition
+// that throws the believed view away without reading the kernel (assigns a fresh
+// map / clears it: "nothing of what we knew survives") voids every pending
+// deletion, so in the same transition each pending-deletion set must be reset,
+// and the reset must not wipe marks made after it (the re-marking of what is
+// wanted).  Pending-deletion sets are derived, not named: the fields of the
+// table over which applyUpdates loops while consulting desiredStateOfChain.
+// ---------------------------------------------------------------------------
+
+func c15ViewDrop(c *Ctx, p *Prog, pkg, typ string) int {
+	view := c15Field(c, p, pkg, typ, "chainToDataplaneHashes")
+	applyUpd := p.Func(pkg, typ+".applyUpdates")
+	desired := p.Func(pkg, typ+".desiredStateOfChain")
+	if applyUpd == nil || desired == nil {
+		c.Lost("%s.%s.applyUpdates/desiredStateOfChain", pkg, typ)
+	}
+	var pend []*types.Var
+	seenPend := map[*types.Var]bool{}
+	for _, cs := range callsIn(applyUpd, true, func(f *types.Func) bool { return f == desired.Object() }) {
+		rf, _ := p.rangedField(cs.Instr.Pos())
+		if rf == nil || seenPend[rf] {
+			continue
+		}
+		if own, _ := p.LookupObj(pkg, typ+"."+rf.Name()).(*types.Var); own != rf {
+			continue
+		}
+		seenPend[rf] = true
+		pend = append(pend, rf)
+	}
+	if len(pend) == 0 {
+		c.Lost("%s.applyUpdates: no loop over a field of the table consults desiredStateOfChain (pending-deletion sets not found)", typ)
+	}
+	// touches(g): does g (depth 2 through static calls, closures included) reset / add to S
+	type touch struct{ reset, add bool }
+	var touches func(g *ssa.Function, s *types.Var, d int, seen map[*ssa.Function]bool) touch
+	direct := func(in ssa.Instruction, s *types.Var) touch {
+		var t touch
+		if st, ok := in.(*ssa.Store); ok {
+			if fa, ok := st.Addr.(*ssa.FieldAddr); ok && fieldVar(fa) == s {
+				t.reset = true
+			}
+		}
+		if ci, ok := in.(ssa.CallInstruction); ok {
+			cc := ci.Common()
+			if f := calleeOf(cc); f != nil {
+				var recv ssa.Value
+				if cc.IsInvoke() {
+					recv = cc.Value
+				} else if len(cc.Args) > 0 && cc.Signature() != nil && cc.Signature().Recv() != nil {
+					recv = cc.Args[0]
+				}
+				if recv != nil && fieldVar(recv) == s {
+					switch {
+					case f.Name() == "Clear":
+						t.reset = true
+					case strings.HasPrefix(f.Name(), "Add"):
+						t.add = true
+					}
+				}
+			}
+		}
+		return t
+	}
+	touches = func(g *ssa.Function, s *types.Var, d int, seen map[*ssa.Function]bool) touch {
+		var t touch
+		if g == nil || g.Blocks == nil || seen[g] {
+			return t
+		}
+		seen[g] = true
+		allInstrs(g, true, func(_ *ssa.Function, in ssa.Instruction) {
+			x := direct(in, s)
+			t.reset = t.reset || x.reset
+			t.add = t.add || x.add
+			if ci, ok := in.(ssa.CallInstruction); ok && d > 0 {
+				x := touches(calleeFn(ci.Common()), s, d-1, seen)
+				t.reset = t.reset || x.reset
+				t.add = t.add || x.add
+			}
+		})
+		return t
+	}
+	n, nRead := 0, 0
+	var firstRead ssa.Instruction
+	for _, f := range p.methodsOf(pkg, typ) {
+		var drops []ssa.Instruction
+		st, _ := c17FieldMutations(f, view)
+		for _, in := range st {
+			fiat, und := true, false
+			for _, o := range origins(in.(*ssa.Store).Val, nil) {
+				switch v := o.V.(type) {
+				case *ssa.MakeMap:
+				case *ssa.Const:
+					if !v.IsNil() {
+						und = true
+					}
+				case *ssa.Call:
+					fiat = false
+				default:
+					und = true
+				}
+			}
+			switch {
+			case !fiat:
+				nRead++
+				if firstRead == nil {
+					firstRead = in
+				}
+			case und:
+				n++
+				c.Undecided(fmt.Sprintf("C15.viewdrop/%s/chainToDataplaneHashes", fnName(f)), p.Pos(in.Pos()), "cannot tell whether the value assigned to the believed view (%s) comes from a kernel read", path(in.(*ssa.Store).Val))
+			default:
+				drops = append(drops, in)
+			}
+		}
+		allInstrs(f, true, func(_ *ssa.Function, in ssa.Instruction) {
+			if cc, ok := isBuiltinCall(in, "clear"); ok && len(cc.Args) == 1 && fieldVar(cc.Args[0]) == view {
+				drops = append(drops, in)
+			}
+		})
+		for _, v0 := range drops {
+			v := c17PosInParent(v0, f)
+			for _, s := range pend {
+				keyBase := fmt.Sprintf("C15.viewdrop/%s/%s", fnName(f), s.Name())
+				if v == nil {
+					n++
+					c.Undecided(keyBase+"/reset", p.Pos(v0.Pos()), "the believed view is dropped inside a closure of %s whose point of use cannot be located", fnName(f))
+					continue
+				}
+				var resets, adds []ssa.Instruction
+				for _, b := range f.Blocks {
+					for _, in := range b.Instrs {
+						t := direct(in, s)
+						if ci, ok := in.(ssa.CallInstruction); ok && !t.reset && !t.add {
+							t = touches(calleeFn(ci.Common()), s, 2, map[*ssa.Function]bool{})
+							// range-over-func / callback bodies consumed by this call
+							for _, a := range ci.Common().Args {
+								if cl := c17FuncOfValue(a); cl != nil && cl.Parent() != nil {
+									x := touches(cl, s, 2, map[*ssa.Function]bool{})
+									t.reset = t.reset || x.reset
+									t.add = t.add || x.add
+								}
+							}
+						}
+						switch {
+						case t.reset:
+							resets = append(resets, in)
+						case t.add:
+							adds = append(adds, in)
+						}
+					}
+				}
+				pd := postDominators(f)
+				var paired []ssa.Instruction
+				for _, r := range resets {
+					if r == v || instrDominates(r, v) || instrPostDominates(pd, r, v) {
+						paired = append(paired, r)
+					}
+				}
+				n++
+				c.Check(len(paired) > 0, keyBase+"/reset", p.Pos(v0.Pos()),
+					"dropping the believed view is paired, on every path, with a reset of this pending-deletion set",
+					fmt.Sprintf("%s drops the believed view %s.chainToDataplaneHashes at %s without reading the kernel, but does not reset %s on every path through that point: chains that are dirty and no longer wanted stay queued for flush/delete although, by the new view, they are not in the kernel - the next write addresses chains that do not exist and can fail on every retry", fnName(f), typ, p.Pos(v0.Pos()), s.Name()))
+				bad := ""
+				for _, r := range paired {
+					for _, a := range adds {
+						if a != r && !c17PathsThrough(a, r, []ssa.Instruction{v}, nil) {
+							bad = fmt.Sprintf("marks made at %s can be wiped by the reset at %s", p.Pos(a.Pos()), p.Pos(r.Pos()))
+						}
+					}
+				}
+				n++
+				c.Check(bad == "", keyBase+"/order", p.Pos(v0.Pos()),
+					"no mark made for the rebuilt view is wiped by the reset",
+					fmt.Sprintf("in %s, which drops the believed view at %s, %s of %s: chains marked for (re)programming after the view was dropped are forgotten and never written", fnName(f), p.Pos(v0.Pos()), bad, s.Name()))
+			}
+		}
+	}
+	if n == 0 {
+		if nRead == 0 {
+			c.Lost("%s.chainToDataplaneHashes is never replaced", typ)
+		}
+		n++
+		c.Ok(fmt.Sprintf("C15.viewdrop/%s/chainToDataplaneHashes", typ), p.Pos(firstRead.Pos()), "the believed view is only ever replaced by what a call returned (%d site(s)); no method drops it without reading", nRead)
+	}
+	return n
 }
